@@ -21,7 +21,8 @@ RULE = ("2-3 threads x 1-3 requests each through the base connection and derived
         "3-14 requests spread over them with all five HTTP methods; part long_runs: >10000 ids on one connection. "
         "Non-trivial = an execution in which a call of the id generator was preempted and another thread executed "
         "id-generator opcodes before it finished (or, where the lock prevented that, blocked on it); distinct by the "
-        "(thread, function, offset) trace restricted to the id generator.")
+        "(thread, function, offset) trace restricted to the id generator."
+        " Also: caller-supplied ids under other spellings of the header name; config 2x2bad (a request whose data cannot be serialised) under every single-preemption schedule.")
 ASSUMPTIONS = [
     "interleavings inside the C code of a single opcode are atomic under the GIL and are not explored; free-threaded builds out of scope",
     "the module's `threading` attribute is replaced by a cooperative shim; a real lock obtained some other way only slows the run down (stuck-thread timeout), it cannot cause a verdict",
